@@ -111,4 +111,84 @@ example : ∃ (i : Nat) (b : UInt8) (hi : i < (encodeValue [0x32, 0x03] 1).lengt
   ⟨3, 0xff, by decide, by decide⟩
 example : (2^64 - 1 : Nat) < 2^64 := by decide
 
+/-- Two different (packet, sequence number) pairs never share a stored value: what a record says is determined by its bytes. -/
+theorem C15_encode_injective (p p' : Bytes) (s s' : Nat) (h : s < 2^64) (h' : s' < 2^64)
+    (he : encodeValue p s = encodeValue p' s') : p = p' ∧ s = s' := by
+  have h1 := C15_roundtrip p s h
+  rw [he, C15_roundtrip p' s' h'] at h1
+  cases h1; exact ⟨rfl, rfl⟩
+example : encodeValue [0x32] 1 ≠ encodeValue [0x32] 2 := by decide
+
+theorem leNat_cons_mod (b : UInt8) (bs : Bytes) : leNat (b :: bs) % 256 = b.toNat := by
+  have := b.toNat_lt; simp only [leNat]; omega
+theorem leNat_cons_div (b : UInt8) (bs : Bytes) : leNat (b :: bs) / 256 = leNat bs := by
+  have := b.toNat_lt; simp only [leNat]; omega
+
+theorem le64_iter (n : Nat) : le64 n =
+    [UInt8.ofNat (n % 256), UInt8.ofNat (n / 256 % 256), UInt8.ofNat (n / 256 / 256 % 256),
+     UInt8.ofNat (n / 256 / 256 / 256 % 256), UInt8.ofNat (n / 256 / 256 / 256 / 256 % 256),
+     UInt8.ofNat (n / 256 / 256 / 256 / 256 / 256 % 256), UInt8.ofNat (n / 256 / 256 / 256 / 256 / 256 / 256 % 256),
+     UInt8.ofNat (n / 256 / 256 / 256 / 256 / 256 / 256 / 256 % 256)] := by
+  simp only [le64, Nat.div_div_eq_div_mul]
+
+theorem le64_leNat (a : Bytes) (ha : a.length = 8) : le64 (leNat a) = a := by
+  match a, ha with
+  | [a0, a1, a2, a3, a4, a5, a6, a7], _ =>
+    rw [le64_iter]
+    simp only [leNat_cons_mod, leNat_cons_div, UInt8.ofNat_toNat]
+
+theorem leNat_lt (a : Bytes) : leNat a < 256 ^ a.length := by
+  induction a with
+  | nil => simp [leNat]
+  | cons b bs ih =>
+    have := b.toNat_lt
+    simp only [leNat, List.length_cons, Nat.pow_succ]
+    omega
+theorem be32_beNat (a : Bytes) (ha : a.length = 4) : be32 (beNat a) = a := by
+  match a, ha with
+  | [a0, a1, a2, a3], _ =>
+    have := a0.toNat_lt; have := a1.toNat_lt; have := a2.toNat_lt; have := a3.toNat_lt
+    simp only [beNat, List.foldl, be32]
+    have e0 : ((((0 * 256 + a0.toNat) * 256 + a1.toNat) * 256 + a2.toNat) * 256 + a3.toNat) / 256^3 % 256 = a0.toNat := by omega
+    have e1 : ((((0 * 256 + a0.toNat) * 256 + a1.toNat) * 256 + a2.toNat) * 256 + a3.toNat) / 256^2 % 256 = a1.toNat := by omega
+    have e2 : ((((0 * 256 + a0.toNat) * 256 + a1.toNat) * 256 + a2.toNat) * 256 + a3.toNat) / 256 % 256 = a2.toNat := by omega
+    have e3 : ((((0 * 256 + a0.toNat) * 256 + a1.toNat) * 256 + a2.toNat) * 256 + a3.toNat) % 256 = a3.toNat := by omega
+    rw [e0, e1, e2, e3]; simp
+
+/-- Nothing but an encoding is accepted: a value that passes `decodeValue` as (packet, seq) is byte for byte
+`encodeValue packet seq` — the converse of the round trip. -/
+theorem C15_accepted_is_encoding (v p : Bytes) (s : Nat) (h : decodeValue v = .ok (p, s)) :
+    v = encodeValue p s ∧ s < 2^64 := by
+  unfold decodeValue at h
+  by_cases hl : v.length < trailerLen
+  · simp [hl] at h
+  · simp only [hl, if_false] at h
+    have hl' : 12 ≤ v.length := by unfold trailerLen at hl; omega
+    split at h
+    · cases h
+    · rename_i hsum
+      simp only [Except.ok.injEq, Prod.mk.injEq] at h
+      obtain ⟨hp, hs⟩ := h
+      have hsum' : (fnv1a (v.take (v.length - 4))).toNat = beNat (v.drop (v.length - 4)) := by
+        simpa using hsum
+      have hmid : ((v.take (v.length - 4)).drop (v.length - 12)).length = 8 := by
+        simp only [List.length_drop, List.length_take]; omega
+      have hle : le64 s = (v.take (v.length - 4)).drop (v.length - 12) := by rw [← hs]; exact le64_leNat _ hmid
+      have hbody : v.take (v.length - 4) = p ++ le64 s := by
+        rw [hle, ← hp]
+        have : v.take (v.length - 12) = (v.take (v.length - 4)).take (v.length - 12) := by
+          rw [List.take_take]; congr 1; omega
+        rw [this, List.take_append_drop]
+      have hsuml : (v.drop (v.length - 4)).length = 4 := by simp only [List.length_drop]; omega
+      refine ⟨?_, ?_⟩
+      · unfold encodeValue
+        simp only
+        rw [← hbody, hsum', be32_beNat _ hsuml, List.take_append_drop]
+      · rw [← hs]
+        have := leNat_lt ((v.take (v.length - 4)).drop (v.length - 12))
+        rw [hmid] at this
+        exact this
+
+example : decodeValue (encodeValue [0x32, 0x03] 5) = .ok ([0x32, 0x03], 5) := C15_roundtrip _ _ (by decide)
+
 end Model
